@@ -288,6 +288,9 @@ class Translator:
             if d is None:
                 raise Unsupported("attribute base")
             return self.name(d, "bool")
+        if isinstance(e, (ast.BinOp, ast.Call, ast.UnaryOp, ast.Constant)):
+            # an int-valued expression used as a truth value
+            return f"(negb ({self.z(e)} =? 0))"
         raise Unsupported(f"bool node {type(e).__name__}")
 
     def s(self, e: ast.AST) -> str:
@@ -601,6 +604,13 @@ def same_modulo_async(file: str, sync_name: str, async_name: str, renames: t.Dic
 
         def visit_Name(self, node):
             return ast.Name(id=renames.get(node.id, node.id), ctx=node.ctx)
+
+        def visit_Call(self, node):
+            self.generic_visit(node)
+            # self._wrap_sync(f, *args)  ->  f(*args)
+            if isinstance(node.func, ast.Attribute) and node.func.attr == "_wrap_sync" and node.args:
+                return ast.Call(func=node.args[0], args=node.args[1:], keywords=node.keywords)
+            return node
 
         def visit_Attribute(self, node):
             self.generic_visit(node)
